@@ -91,7 +91,13 @@ def lake_build(targets: t.List[str], timeout: int = 1500) -> t.Tuple[bool, str]:
 
 
 def props_index() -> t.Dict[str, t.Any]:
-    return json.load(open(os.path.join(LEAN_DIR, "props_index.json")))
+    """property -> {"theorems": [...]}; one file per property under lean/props_index.d/"""
+    idx: t.Dict[str, t.Any] = {}
+    d = os.path.join(LEAN_DIR, "props_index.d")
+    for fn in sorted(os.listdir(d)):
+        if fn.endswith(".json"):
+            idx[fn[:-5]] = json.load(open(os.path.join(d, fn)))
+    return idx
 
 
 def audit_source(files: t.List[str]) -> t.List[str]:
